@@ -622,7 +622,7 @@ func runG5(r *Repo, rep *Report) {
 						// the new identifier must be the name returned by (*pkg).Add …
 						if nameE != nil && g5FromAdd(r, fi, nameE) {
 							// … and stand where the old one stood: NamePos: <the same call>.Fun.Pos()
-							if posE != nil && exprStr(posE) == exprStr(l)+".Pos()" {
+							if posE != nil && (exprStr(posE) == exprStr(l)+".Pos()" || g5LocalIs(info, fi, posE, exprStr(l)+".Pos()")) {
 								ok = true
 							} else {
 								noPos = true
@@ -2084,4 +2084,31 @@ func g23NothingGenerated(r *Repo, fi *FuncInfo, cond ast.Expr) bool {
 		return true
 	})
 	return fromGen && !other
+}
+
+
+// g5LocalIs: e is a local variable with exactly one definition, whose right-hand side has the given text.
+func g5LocalIs(info *types.Info, fi *FuncInfo, e ast.Expr, text string) bool {
+	id, ok := ast.Unparen(e).(*ast.Ident)
+	if !ok || info.Uses[id] == nil {
+		return false
+	}
+	v := info.Uses[id]
+	defs, match := 0, false
+	ast.Inspect(fi.Decl.Body, func(m ast.Node) bool {
+		as, ok := m.(*ast.AssignStmt)
+		if !ok || len(as.Lhs) != len(as.Rhs) {
+			return true
+		}
+		for k, l := range as.Lhs {
+			if lid, ok := l.(*ast.Ident); ok && objOf(info, lid) == v {
+				defs++
+				if exprStr(as.Rhs[k]) == text {
+					match = true
+				}
+			}
+		}
+		return true
+	})
+	return defs == 1 && match
 }
